@@ -142,6 +142,21 @@ func genC11(e *emitter, tier string) {
 			e.emit(opCase("cast-fraction", "Cast", []Attr{{Name: "to", Type: "i", I: int64(onnxCode[tgt])}}, []*TJ{fT(src, []int{2, 5}, v)}, nil))
 		}
 	}
+	// 64-bit integers beyond the 53-bit mantissa of a float64 (carried as decimal strings)
+	wide := map[string][]any{
+		"i64": {"9007199254740993", "-9007199254740993", "4611686018427387905", "9223372036854775807", "-9223372036854775808", "1152921504606846977", 5, -5},
+		"u64": {"9007199254740993", "4611686018427387905", "9223372036854775807", "9223372036854775809", "18446744073709551615", "1152921504606846977", 5, 0},
+	}
+	for _, src := range []string{"i64", "u64"} {
+		for _, tgt := range nums {
+			for _, s := range [][]int{{8}, {2, 4}} {
+				e.emit(opCase("cast-wide", "Cast", []Attr{{Name: "to", Type: "i", I: int64(onnxCode[tgt])}}, []*TJ{{Dt: src, Shape: s, Data: append([]any{}, wide[src]...)}}, nil))
+			}
+		}
+		for i := range wide[src] {
+			e.emit(opCase("cast-wide", "Cast", []Attr{{Name: "to", Type: "i", I: int64(onnxCode[src])}}, []*TJ{{Dt: src, Shape: []int{}, Data: []any{wide[src][i]}}}, nil))
+		}
+	}
 	e.emit(opCase("cast-attrs", "Cast", nil, []*TJ{iota1("f32", 2)}, nil))
 	e.emit(opCase("cast-attrs", "Cast", []Attr{{Name: "too", Type: "i", I: 1}}, []*TJ{iota1("f32", 2)}, nil))
 	// ConstantOfShape: every value type, shapes rank 1..4, default value, invalid extents / values
@@ -182,6 +197,10 @@ func genC11(e *emitter, tier string) {
 	e.emit(opCase("constant", "Constant", []Attr{{Name: "value_int", Type: "i", I: 0}}, []*TJ{}, nil))
 	e.emit(opCase("constant", "Constant", []Attr{{Name: "value_floats", Type: "floats", Fs: []float64{1, -2, 4}}}, []*TJ{}, nil))
 	e.emit(opCase("constant", "Constant", []Attr{{Name: "value_ints", Type: "ints", Ints: []int64{5, -6}}}, []*TJ{}, nil))
+	e.emit(opCase("constant", "Constant", []Attr{{Name: "value_floats", Type: "floats", Fs: []float64{1.5}}}, []*TJ{}, nil))
+	e.emit(opCase("constant", "Constant", []Attr{{Name: "value_floats", Type: "floats", Fs: []float64{0}}}, []*TJ{}, nil))
+	e.emit(opCase("constant", "Constant", []Attr{{Name: "value_floats", Type: "floats", Fs: []float64{3, 4}}}, []*TJ{}, nil))
+	e.emit(opCase("constant", "Constant", []Attr{{Name: "value_ints", Type: "ints", Ints: []int64{0}}}, []*TJ{}, nil))
 	e.emit(opCase("constant", "Constant", []Attr{{Name: "value_ints", Type: "ints", Ints: []int64{9223372036854775807}}}, []*TJ{}, nil))
 	for _, dt := range valDts {
 		for _, s := range [][]int{{}, {1}, {2, 3}, {1, 2, 2}} {
